@@ -38,6 +38,13 @@ func jsonStage(fname string, r *rand.Rand, n int, faults, roundtrip bool, gp gen
 	return core.Stage{Name: fname, EvalMod: "EvalJson", EvalEnv: map[string]string{"SCHEMA": f.DSFile},
 		Cases: func(emit func(core.Case)) {
 			g := &gen.G{DS: f.DS, R: r, P: gp}
+			// every schema node is written (and read back) at least once, on every kind of store
+			for i, t := range coverTrees(f, r) {
+				for k, store := range stores {
+					emit(core.Case{"kind": "jsonw", "fixture": fname, "store": store, "tree": t, "at": abs.Path{},
+						"enumids": (i+k)%4 == 0, "qualify": (i+k)%2 == 0, "faults": false, "roundtrip": roundtrip})
+				}
+			}
 			for i := 0; i < n; i++ {
 				t := g.Subtree(abs.Path{})
 				sels := startSelections(f, t, r, 2)
